@@ -358,7 +358,7 @@ class Source:
         """static const T NAME = value;  -> [(ctype-text, name, value-text)]"""
         out = []
         for nm in names:
-            m = re.search(r'\bstatic\s+const\s+([\w\s:]+?)\s+' + re.escape(nm) + r'\s*=\s*([^;]+);', self.blank)
+            m = re.search(r'\b(?:static\s+)?const\s+([\w\s:]+?)\s+' + re.escape(nm) + r'\s*=\s*([^;]+);', self.blank)
             if not m:
                 raise ExtractError("static const %s not found in %s" % (nm, self.rel))
             out.append((m.group(1).strip(), nm, m.group(2).strip()))
